@@ -216,5 +216,53 @@ func init() {
 			e.statusJob(s)
 		}
 	})
+
+	// bindwindow: a directed schedule for distributed queues. The binding thread is held right after
+	// start() has sent its wake-up and before it subscribes to the adapter; the event loop uses the
+	// wake-up; a producer then places an item on the adapter. Nothing announces that item to the
+	// consumer unless the binding is ordered so that the wake-up comes after the subscription (C13:
+	// items already there when the worker was bound are processed without further prompting).
+	registerFamily("bindwindow", []string{"C01", "C03", "C11", "C13"}, func(e *env) {
+		r := vt.Rand()
+		e.kind = kPlain
+		e.conc = e.p("conc", 1+r.Intn(2))
+		e.mkWorker()
+		prio := r.Intn(2) == 0
+		ad := newRecAdapter(prio, 0)
+		e.adapters = append(e.adapters, ad)
+		var producer qh
+		if prio {
+			producer = qDistP{NewDistributedPriorityQueue[int](adPrio{ad})}
+		} else {
+			producer = qDistQ{NewDistributedQueue[int](ad)}
+		}
+		e.qs = append(e.qs, producer)
+		e.qkinds = append(e.qkinds, map[bool]int{false: qDist, true: qDistPrio}[prio])
+		binder, on := -1, true
+		vt.Hold(func(tid, site int, kind string) bool {
+			return on && tid == binder && kind == "runlock" && siteName(site) == "worker.notifyToPullNextJobs/w.mx.RUnlock"
+		})
+		var jn joiner
+		jn.goClient("binder", func() {
+			binder = vt.Cur().ID
+			c := e.call("Bind", "dist")
+			if prio {
+				e.wPlain.WithDistributedPriorityQueue(adPrio{ad})
+			} else {
+				e.wPlain.WithDistributedQueue(ad)
+			}
+			c.ret(e.w.Status())
+		})
+		vt.WaitIdle() // the binder sits behind start()'s wake-up; the event loop has used it
+		n := 1 + r.Intn(2)
+		for i := 0; i < n; i++ {
+			e.add(0, r.Intn(3), oOK, false, "")
+		}
+		vt.WaitIdle()
+		on = false
+		jn.wait()
+		vt.WaitIdle()
+		e.takeFinalCounts()
+	})
 }
 
